@@ -15,7 +15,7 @@ RULE = ("Hypothesis rule-based state machine over one live SimulateOde and an ab
         "generated model (1-3 states, 0-3 parameters, 0-2 events, 0-1 ODE terms, 0-1 derived parameters). Rules: add_event(Event), "
         "add_event(Transition with equation), add_event(Event whose member transition carries the rate), add_transition, "
         "add_birth_death (birth and death), add_ode / ode_list=[..] / ode_list=Transition, param_list = old+[new] / [new] / 'new', "
-        "derived_param_list=[(name, eqn)], a sibling model (same names and rates, other derived-parameter / ODE definitions) built and evaluated in the same process, parameters = full list | tuple | array | dict by name | dict by symbol | pair list | "
+        "derived_param_list=[(name, eqn)] for a new name or for an existing one (re-definition), a sibling model (same names and rates, other derived-parameter / ODE definitions) built and evaluated in the same process, parameters = full list | tuple | array | dict by name | dict by symbol | pair list | "
         "partial dict, and evaluate(subset of the 11 compiled evaluators at a generated (x,t)). Evaluation is enabled when every "
         "parameter referenced by the definition has a value. Oracle after every evaluate step and at the end of the history (all "
         "11): each evaluated function equals (rtol 1e-9) the value from a freshly constructed model rendered from the mirror with "
@@ -42,7 +42,7 @@ LEVEL_NOTE = ("Trusts that a freshly constructed model is correct only in conjun
               "agree with the live model); bounded history length; lambdify back-end.")
 DESIGN_REF = "DESIGN.md section 3 (C08), section 4 (F6)"
 
-STRUCTURAL = {"add_event", "add_transition", "add_birth_death", "add_ode", "add_param", "add_derived"}
+STRUCTURAL = {"add_event", "add_transition", "add_birth_death", "add_ode", "add_param", "add_derived", "redefine_derived"}
 NEW_PARAM_POOL = ["zeta", "eta", "theta1", "chi", "psi", "lam", "xi", "q0", "r0", "w"]
 
 
@@ -159,6 +159,12 @@ class World:
     def _op_add_derived(self, op):
         self.model.derived_param_list = [(op["name"], ir.to_str_top(op["expr"]))]
         self.m["derived"].append({"name": op["name"], "expr": op["expr"]})
+
+    def _op_redefine_derived(self, op):
+        self.model.derived_param_list = [(op["name"], ir.to_str_top(op["expr"]))]
+        for d in self.m["derived"]:
+            if d["name"] == op["name"]:
+                d["expr"] = op["expr"]
 
     def _op_add_event(self, op):
         ev = op["event"]
@@ -310,7 +316,16 @@ def _single_event(draw, w, kinds):
 
 VARIANTS = ["add_event:event", "add_event:trans", "add_event:event_eq", "add_transition", "add_birth_death:B", "add_birth_death:D",
             "add_ode:add_ode", "add_ode:ode_list", "add_ode:ode_list_single", "add_param:concat", "add_param:list",
-            "add_param:string", "add_derived"]
+            "add_param:string", "add_derived", "redefine_derived"]
+
+
+def _redefinable(m):
+    """Derived parameters no other derived parameter refers to (a reference is resolved when the referring one is defined,
+    so re-defining the inner one later is not meant to propagate)."""
+    used = set()
+    for d in m["derived"]:
+        used |= ir.atoms(d["expr"], "d")
+    return [d["name"] for d in m["derived"] if d["name"] not in used]
 
 
 def _draw_modification(data, w):
@@ -321,7 +336,8 @@ def _draw_modification(data, w):
     variants = [v for v in VARIANTS
                 if not (v == "add_transition" and len(states) < 2)
                 and not (v.startswith("add_param") and len(m["params"]) >= 6)
-                and not (v == "add_derived" and (not m["params"] or len(m["derived"]) >= 3))]
+                and not (v == "add_derived" and (not m["params"] or len(m["derived"]) >= 3))
+                and not (v == "redefine_derived" and (not m["params"] or not _redefinable(m)))]
     v = data.draw(st.sampled_from(variants))
     kind, _, sub = v.partition(":")
     if kind == "add_event":
@@ -347,6 +363,12 @@ def _draw_modification(data, w):
         if sub == "string":
             new = new[:1]          # the setter documents a list of names; a bare string is taken as ONE name
         return {"op": "add_param", "names": new, "via": sub}
+    if kind == "redefine_derived":
+        # the same name defined again through the setter: the latest definition is the model's
+        name = data.draw(st.sampled_from(_redefinable(m)))
+        k = data.draw(S.coef(m["params"]))
+        e = ir.div(ir.mul(ir.C(data.draw(st.sampled_from([2, 3, 5]))), k), ir.add(ir.C(2), data.draw(S.coef(m["params"]))))
+        return {"op": "redefine_derived", "name": name, "expr": e}
     name = [n for n in ["dd1", "dd2", "dd3", "dd4"] if n not in dn][0]
     k = data.draw(S.coef(m["params"]))
     e = ir.div(k, ir.add(ir.C(1), data.draw(S.coef(m["params"]))))
